@@ -461,7 +461,9 @@ static void rec_for(const Cls &c, const Params &P, bool canon, const std::string
 		case S_EOTP: h = P.g; break;
 		default: break;
 		}
-		Rec("cg_gens").t(c.name).u(P.F).u(P.G).d(c.derive_k).d(cn).z(P.p).z(P.q).z(P.k).z(h).t(zl(gs)).t(tab_tok(tab)).t(verdict);
+		// sign test `mpz_sgn(q) <= 0 -> false` (fix 7223137): every class of the family except the commitment scheme
+		bool sign_test = c.derive_k || c.shape == S_TRAP;
+		Rec("cg_gens").t(c.name).u(P.F).u(P.G).d(sign_test).d(c.derive_k).d(cn).z(P.p).z(P.q).z(P.k).z(h).t(zl(gs)).t(tab_tok(tab)).t(verdict);
 	}
 }
 
@@ -474,9 +476,6 @@ static void judge(const Cls &c, const std::string &gname, const std::string &cna
 	// a constructor that throws refuses the set as well (fix c237514: zero modulus -> std::invalid_argument)
 	if (v != "1" && v != "0" && v != "exc")
 		propfail("abnormal:" + key, "CheckGroup of " + std::string(c.name) + " on " + gname + " with " + cname + " ended with " + v + " stream=" + xb(group_stream(P, c.shape)));
-	else if (v == "1" && !want && c.derive_k && cname == "q=neg")
-		// outside the letter of the property (|q| is prime, the relation holds with k = (p-1) div q < 0): reported as observation
-		printf("OBSERVE negative-order-accepted %s %s\n", c.name, gname.c_str());
 	else if ((v == "1") != want)
 		propfail((want ? "valid-refused:" : "corrupt-accepted:") + key, std::string(c.name) + " CheckGroup returned " + v + " on " + gname + " with " + cname +
 			" F=" + std::to_string(P.F) + " G=" + std::to_string(P.G) + " stream=" + xb(group_stream(P, c.shape)));
